@@ -1,5 +1,16 @@
 """Runs pydl.smooth / median / uniq / rebin of the repository under test on a list of calls (stdin JSON).
 
+Generic protections applied to EVERY call (not per function):
+  * the array argument is built in the requested memory layout (contiguous, strided view, reversed view,
+    Fortran order, transposed view, read-only) and its bytes -- and those of the buffer it is a view of -- are
+    compared after the call with a copy taken before (`input_unchanged`);
+  * the call is repeated on a fresh READ-ONLY array with the same values; it must not raise and must return the
+    same answer (`readonly_ok`);
+  * `aliases_input`: np.shares_memory(result, argument) (reported, informational);
+  * `history` calls run several operations in one process on the SAME array object; after every step the object
+    must still hold the original bytes, and every step's result is returned for comparison with the model's
+    answer on the ORIGINAL values.
+
 Floats travel as JSON numbers (Python's repr round-trips doubles exactly; float32 results are widened
 to the double with the same value)."""
 import json
@@ -10,58 +21,127 @@ import numpy as np
 import pydl
 from pydl import smooth, median, uniq, rebin
 
+JUNK = 77
+
 
 def err(e):
     return {'err': type(e).__name__, 'msg': str(e)[:160]}
 
 
+def make_array(vals, dtype, layout):
+    """-> (array handed to pydl, owner buffer whose bytes must not change)"""
+    a = np.array(vals, dtype=dtype)
+    if layout in (None, 'c'):
+        return a, a
+    if layout == 'ro':
+        a.flags.writeable = False
+        return a, a
+    if layout == 'strided':            # every second element of a longer buffer, along the last axis
+        shp = list(a.shape)
+        shp[-1] *= 2
+        base = np.full(shp, JUNK, dtype=dtype)
+        base[..., ::2] = a
+        return base[..., ::2], base
+    if layout == 'rev':                # reversed view along axis 0
+        base = np.ascontiguousarray(a[::-1])
+        return base[::-1], base
+    if layout == 'f':
+        f = np.asfortranarray(a)
+        return f, f
+    if layout == 't':                  # transposed view of the transposed data (2-D and up)
+        base = np.ascontiguousarray(a.T)
+        return base.T, base
+    raise ValueError('layout ' + str(layout))
+
+
 def arr_out(r):
-    return {'ok': np.asarray(r).tolist(), 'dtype': str(np.asarray(r).dtype), 'shape': list(np.asarray(r).shape),
-            'is_ndarray': isinstance(r, np.ndarray)}
+    a = np.asarray(r)
+    return {'ok': a.tolist(), 'dtype': str(a.dtype), 'shape': list(a.shape), 'is_ndarray': isinstance(r, np.ndarray)}
+
+
+def invoke(c, x, idx=None):
+    """one pydl call on the array object x -> (raw result, serialised result)"""
+    f = c['f']
+    if f == 'smooth':
+        r = smooth(x, c['w'], edge_truncate=c['et']) if c['et'] is not None else smooth(x, c['w'])
+        return r, arr_out(r)
+    if f == 'median':
+        r = median(x, even=True) if c['even'] else median(x)
+        return r, {'ok': float(r), 'ndim0': bool(np.ndim(r) == 0)}
+    if f == 'median_axis':
+        r = median(x, axis=c['axis'])
+        return r, arr_out(r)
+    if f == 'medfilt':
+        r = median(x, width=c['w'])
+        return r, arr_out(r)
+    if f == 'uniq':
+        r = uniq(x) if idx is None else uniq(x, idx)
+        o = arr_out(r)
+        o['ok'] = [int(v) for v in np.asarray(r).ravel()]
+        return r, o
+    if f == 'rebin':
+        r = rebin(x, tuple(c['d']), sample=True) if c['sample'] else rebin(x, tuple(c['d']))
+        return r, arr_out(r)
+    raise ValueError('BadCall')
+
+
+def same_answer(a, b):
+    return json.dumps(a, sort_keys=True) == json.dumps(b, sort_keys=True)
 
 
 def call(c):
     f = c['f']
+    if f == 'history':
+        return history(c)
+    dtype = c.get('dtype', 'f8')
     try:
-        if f == 'smooth':
-            x = np.array(c['x'], dtype=c.get('dtype', 'f8'))
-            x0 = x.copy()
-            r = smooth(x, c['w'], edge_truncate=c['et']) if c['et'] is not None else smooth(x, c['w'])
-            o = arr_out(r)
-            o['input_unchanged'] = bool(np.array_equal(x, x0))
-            return o
-        if f == 'median':
-            x = np.array(c['x'], dtype='f8')
-            r = median(x, even=True) if c['even'] else median(x)
-            return {'ok': float(r), 'ndim0': bool(np.ndim(r) == 0)}
-        if f == 'median_axis':
-            x = np.array(c['x'], dtype='f8')
-            return arr_out(median(x, axis=c['axis']))
-        if f == 'medfilt':
-            x = np.array(c['x'], dtype=c.get('dtype', 'f8'))
-            x0 = x.copy()
-            o = arr_out(median(x, width=c['w']))
-            o['input_unchanged'] = bool(np.array_equal(x, x0))
-            return o
-        if f == 'uniq':
-            x = np.array(c['x'], dtype=c['dtype'])
-            if c.get('idx') is None:
-                r = uniq(x)
-            else:
-                r = uniq(x, np.array(c['idx'], dtype=c.get('idx_dtype', 'i8')))
-            o = arr_out(r)
-            o['ok'] = [int(v) for v in np.asarray(r).ravel()]
-            return o
-        if f == 'rebin':
-            x = np.array(c['x'], dtype=c['dtype'])
-            x0 = x.copy()
-            r = rebin(x, tuple(c['d']), sample=True) if c['sample'] else rebin(x, tuple(c['d']))
-            o = arr_out(r)
-            o['input_unchanged'] = bool(np.array_equal(x, x0))
-            return o
-        return {'err': 'BadCall'}
+        x, owner = make_array(c['x'], dtype, c.get('layout'))
+    except Exception as e:  # noqa: BLE001
+        return {'err': 'HarnessError', 'msg': str(e)}
+    idx = idx_owner = None
+    if f == 'uniq' and c.get('idx') is not None:
+        idx, idx_owner = make_array(c['idx'], c.get('idx_dtype', 'i8'), 'c')
+    before = owner.tobytes()
+    idx_before = idx_owner.tobytes() if idx_owner is not None else None
+    try:
+        raw, o = invoke(c, x, idx)
     except Exception as e:  # noqa: BLE001 - the error class is the observation
-        return err(e)
+        raw, o = None, err(e)
+    o['input_unchanged'] = bool(owner.tobytes() == before and (idx_owner is None or idx_owner.tobytes() == idx_before))
+    o['aliases_input'] = bool(isinstance(raw, np.ndarray) and np.shares_memory(raw, owner))
+    # the same call on a read-only array with the same values
+    x2 = np.array(c['x'], dtype=dtype)
+    x2.flags.writeable = False
+    idx2 = None
+    if idx is not None:
+        idx2 = np.array(c['idx'], dtype=c.get('idx_dtype', 'i8'))
+        idx2.flags.writeable = False
+    try:
+        _, o2 = invoke(c, x2, idx2)
+    except Exception as e:  # noqa: BLE001
+        o2 = err(e)
+    keys = ('ok', 'dtype', 'shape', 'err')
+    o['readonly_ok'] = same_answer({k: o.get(k) for k in keys}, {k: o2.get(k) for k in keys})
+    if not o['readonly_ok']:
+        o['readonly_result'] = {k: o2.get(k) for k in ('ok', 'err', 'msg') if k in o2}
+    return o
+
+
+def history(c):
+    """several operations on the SAME array object; the object must keep its original bytes throughout"""
+    x, owner = make_array(c['x'], c.get('dtype', 'f8'), c.get('layout'))
+    before = owner.tobytes()
+    steps = []
+    for st in c['steps']:
+        try:
+            raw, o = invoke(st, x)
+        except Exception as e:  # noqa: BLE001
+            raw, o = None, err(e)
+        o['input_unchanged'] = bool(owner.tobytes() == before)
+        o['aliases_input'] = bool(isinstance(raw, np.ndarray) and np.shares_memory(raw, owner))
+        o['readonly_ok'] = True
+        steps.append(o)
+    return {'steps': steps}
 
 
 def main():
